@@ -73,7 +73,7 @@ def run(tier):
                        "plus seeded free-running runs of 4-8 goroutines issuing random API calls (Emit, EmitSync, GetStats, TriggerWindow, AddSink, Stop) against sinks that are fast / slow / panicking / re-entrant; distinct = distinct scenario parameters")
     res.assumptions = ASSUME
     for nrows, cep in ([(2, "TRUE")] if quick else [(2, "TRUE"), (3, "FALSE")]):
-        cfg = "SPECIFICATION Spec\nCONSTANTS NRows = %d PoolCap = 1 NWorkers = 2 SyncCalls = 1 TrackSync = TRUE Cep = %s\nINVARIANTS NoSinkAfterStopReturned StopIdempotent FlushBeforeReturn\nPROPERTIES StopReturns AllExit\nCHECK_DEADLOCK FALSE\n" % (nrows, cep)
+        cfg = "SPECIFICATION Spec\nCONSTANTS NRows = %d PoolCap = 1 NWorkers = 2 SyncCalls = 1 TrackSync = TRUE Cep = %s StopWaits = TRUE\nINVARIANTS NoSinkAfterStopReturned StopIdempotent FlushBeforeReturn\nPROPERTIES StopReturns AllExit\nCHECK_DEADLOCK FALSE\n" % (nrows, cep)
         seqfam.model(res, PIPE, "Lifecycle", cfg, "Lifecycle", {"NRows": nrows, "PoolCap": 1, "NWorkers": 2, "SyncCalls": 1, "TrackSync": True, "Cep": cep}, timeout=1500)
     return res.finish()
 
